@@ -248,8 +248,8 @@ harnesses! {
     fn c02_q_eq_str_amino [10] { eq_str!(Amino, oracle::AMINO, 21, 2) }
     fn c02_t_eq_str_iupac [10] { eq_str!(Iupac, oracle::IUPAC, 32, 3) }
     // case-carrying codecs: a lower-case letter is a different symbol from its upper-case form
-    fn c02_p_eq_str_mdna [10] { eq_str!(masked::Dna, oracle::MDNA, 32, 2) }
-    fn c02_p_eq_str_miupac [10] { eq_str!(masked::Iupac, oracle::MIUPAC, 25, 2) }
+    fn c02_q_eq_str_mdna [10] { eq_str!(masked::Dna, oracle::MDNA, 32, 2) }
+    fn c02_t_eq_str_miupac [10] { eq_str!(masked::Iupac, oracle::MIUPAC, 25, 2) }
     fn c02_q_eq_sym_dna [10] { eq1::<Dna, 64, 2>(8); }
     fn c02_q_eq_sym_amino [10] { eq1::<Amino, 21, 2>(3); }
     fn c02_q_eq_sym_miupac [10] { eq1::<masked::Iupac, 25, 2>(3); }
